@@ -4,20 +4,26 @@ import vlib
 
 TARGETS = ["Base/Corr.vo", "C19/Model.vo", "C19/ModelP.vo", "C19/Corr.vo", "C19/Spec.vo", "C19/SpecTest.vo",
            "C19/ProofsRot.vo", "C19/ProofsList.vo", "C19/ProofsLookup.vo", "C19/ProofsIns.vo", "C19/ProofsDel.vo",
-           "C19/ProofsRun.vo", "C19/ProofsIter.vo", "C19/ProofsIds.vo", "C19/ProofsPar.vo", "C19/Proofs.vo",
+           "C19/ProofsRun.vo", "C19/ProofsIter.vo", "C19/ProofsIds.vo", "C19/ProofsPar.vo", "C19/ProofsNext.vo", "C19/Proofs.vo",
            "C19/Props.vo"]
 PROPS = ["C19/Props.v"]
-PARTIAL = ("Proved for ALL operation histories with int64 keys, about the hand-written model coq/C19/Model.v: "
+PARTIAL = ("Proved in Coq for ALL operation histories with int64 keys, about the hand-written model coq/C19/Model.v: "
            "(1) every tree of every reachable world is a search tree whose balance fields equal the height difference "
            "and lie in -1..1 (hence 2^(h/2) <= n+1); (2) the whole observable run (Insert/Delete flags, FindNode, "
            "FindNodeLE, Clone, key lists, iterator creation/clone/Next incl. live iterators under interleaved "
-           "Insert/Delete/Clone and the MaxInt cursor) equals the run of the set-level specification; (3) insert/delete "
-           "refine sadd/sdel with exact flags and height change. NOT proved inside Coq: the model keeps structural "
-           "parents, so 'stored Parent pointer = structural parent', the Deleted flags and node-identity facts (ids "
-           "distinct, tombstones disjoint from live nodes) are not theorems; they are tied to the implementation by the "
-           "correspondence (checksum of the preorder dump of Value/Balance/Parent at every mutating step, iterator "
-           "outputs at every Next) and by the harness-side structural check of Go's Parent/Deleted fields. int is "
-           "modelled as Z with the int64 wrap written explicitly where the code computes value+1.")
+           "Insert/Delete/Clone and the MaxInt cursor) equals the run of the set-level specification; complete "
+           "iterations visit exactly the keys (>= i for IteratorFrom) ascending; (3) insert/delete refine sadd/sdel "
+           "with exact flags and height change; (4) node ids stay distinct, tombstones are disjoint from live nodes and "
+           "an iterator's node is always live or tombstoned; (5) for all Insert/Delete histories the pointer-level model "
+           "coq/C19/ModelP.v (Parent updated where avl-tree.go does it) keeps stored parent = structural parent and "
+           "erases to Model.v, and the transliterated successor walk of AvlIterator.Next through the stored Parent "
+           "pointers equals the structural successor used by Model.v. NOT proved: ModelP.v covers one tree under "
+           "Insert/Delete (Clone's pointer copying is modelled in Model.v as sharing the immutable tree value; the "
+           "world-level iterator model uses the structural successor, justified by (5)). Model.v/ModelP.v are tied to the implementation by the "
+           "correspondence only (every step of every generated history: flags, values, checksum of the preorder dump "
+           "of Value/Balance/Parent value; the harness also rejects any step where Go's stored Parent differs from the "
+           "structural parent or a reachable node is flagged Deleted). int is modelled as Z with the int64 wrap written "
+           "explicitly where the code computes value+1.")
 
 
 def corr(ctx, binary, n, corpus):
